@@ -256,6 +256,9 @@ fn pick_pool(rng: &mut Rng, allow_one: bool, flap: bool) -> Vec<u32> {
 }
 
 fn pick_content(rng: &mut Rng, pt: Pt) -> Content {
+    if pt.comp_kind() == 3 && rng.chance(1, 14) {
+        return Content::Tiny;
+    }
     match rng.below(13) {
         0..=6 => Content::Random,
         7 => Content::Ramp,
